@@ -4,7 +4,9 @@
 (* survive a restart unchanged.  TLC generates every bounded sequence of   *)
 (* register / unregister / set ACL / delete ACL / restart; the harness     *)
 (* executes it on the real ServiceCore (a restart = a new ServiceCore on   *)
-(* the same directory) and compares clients and ACLs at the end.           *)
+(* the same directory) and compares clients and ACLs at the end.  Token    *)
+(* requests (client assertions of every shape, admin credentials) are      *)
+(* steps too: their outcome is compared where they happen.                 *)
 (***************************************************************************)
 EXTENDS Integers, Sequences, FiniteSets, TLC, Json
 (* persistence of clients and ACLs (C16 last clause, C14) *)
@@ -26,6 +28,14 @@ SetAcl(c, k) == acls' = [x \in DOMAIN acls \cup {c} |-> IF x = c THEN k ELSE acl
                 /\ PLog([a |-> "setacl", c |-> c, k |-> k])
 DelAcl(c) == c \in DOMAIN acls /\ acls' = [x \in DOMAIN acls \ {c} |-> acls[x]] /\ UNCHANGED reg
              /\ PLog([a |-> "delacl", c |-> c])
+\* a client asks for an access token with an assertion signed by key version kv of client c (the token route is open:
+\* this is where "a valid token" comes from).  One is issued iff c is registered with exactly that key and the
+\* assertion is fresh and RS256-signed; the same for the admin's key and secret.  Nothing changes.
+Shapes == {"fresh", "expired", "notyet", "hs256", "none", "garbage"}
+TokenByAssertion(c, kv, sh) == /\ UNCHANGED <<reg, acls>>
+                     /\ PLog([a |-> "assert", c |-> c, kv |-> kv, sh |-> sh,
+                              ok |-> (c \in DOMAIN reg /\ (IF c \in DOMAIN reg THEN reg[c] = kv ELSE FALSE) /\ sh = "fresh")])
+AdminLogin(good) == UNCHANGED <<reg, acls>> /\ PLog([a |-> "admin", ok |-> good])
 PRestart == phist # <<>> /\ (IF phist = <<>> THEN FALSE ELSE phist[Len(phist)].a # "restart")
             /\ UNCHANGED <<reg, acls>> /\ PLog([a |-> "restart"])
 PInit == reg = <<>> /\ acls = <<>> /\ phist = <<>>
@@ -33,6 +43,8 @@ PNext == /\ Len(phist) < MaxOps
          /\ \/ \E c \in Clients : Register(c) \/ Unregister(c) \/ DelAcl(c)
             \/ \E c \in Clients, k \in 1..2 : SetAcl(c, k)
             \/ PRestart
+            \/ \E c \in Clients, kv \in 1..3, sh \in Shapes : TokenByAssertion(c, kv, sh)
+            \/ \E good \in BOOLEAN : AdminLogin(good)
 PSpec == PInit /\ [][PNext]_pvars
 \* the history is hidden from the view, except whether the last step was a restart (it changes nothing else:
 \* without the bit a restart would only ever END a sequence)
